@@ -84,6 +84,8 @@ def _log_bounds(terms):
 
 
 def _base_db(ir, zm, m, nsim, values=None, zero_later_unant=False):
+    """zero_later_unant: False = keep all; True = zero the unanticipated transition shocks after the start; an int K = zero them after period K"""
+    zthr = None if zero_later_unant is False else (0 if zero_later_unant is True else int(zero_later_unant))
     start = ir.qq(2020, 1)
     span = start >> (start + nsim - 1)
 
@@ -97,7 +99,7 @@ def _base_db(ir, zm, m, nsim, values=None, zero_later_unant=False):
     for i, n in enumerate(list(zm.tshocks) + list(zm.mshocks)):
         # zero_later_unant: plans that endogenize anticipated shocks after the start date force split frames, which break at every
         # non-zero unanticipated transition shock; keeping those at zero after the start gives one (Split)frame over the whole span
-        db[n] = ir.Series(start=start, values=tuple((0.0 if (zero_later_unant and k > 0 and n in zm.tshocks) else val(n, k, 0.125 + 0.03125 * ((i + k) % 3)))
+        db[n] = ir.Series(start=start, values=tuple((0.0 if (zthr is not None and k > zthr and n in zm.tshocks) else val(n, k, 0.125 + 0.03125 * ((i + k) % 3)))
                                                     for k in range(nsim)))
     for i, s in enumerate(zm.tshocks):
         db["ant_" + s] = ir.Series(start=start, values=tuple(val("ant_" + s, k, 0.0625 + 0.03125 * ((i + k) % 2)) for k in range(nsim)))
@@ -163,6 +165,12 @@ def _plans(zm, tier):
             out.append(dict(mode="a", targets=[(V[0], 1), (V[1], 2)], instruments=[(E[0], 0), (E[1], 1)]))
             out.append(dict(mode="a", targets=[(V[0], 1), (V[1], 2)], instruments=[(E[1], 0), (E[0], 1)]))
         out.append(dict(mode="a", targets=[(V[0], 2)], instruments=[(E[0], 1)]))
+        # the same with the later unanticipated shocks kept: the simulation is split into several frames (one per surprise date)
+        # (backward-looking models only: with leads, the periods simulated by an earlier frame anticipate that frame's own estimate of the
+        # instrument, which the returned databox does not contain, so neither obligation is observable from the output)
+        if "backward" in zm.tags:
+            out.append(dict(mode="a", targets=[(V[0], 2)], instruments=[(E[0], 1)], multi=True))
+            out.append(dict(mode="a", targets=[(V[0], 3)], instruments=[(E[0], 2)], multi=True))
     else:
         for mode in ("u", "a"):
             for (v, kv) in itertools.product(V, range(3)):
@@ -183,25 +191,60 @@ def _plans(zm, tier):
 
 
 def _later(spec):
-    """anticipated shocks endogenized after the start date (forces split frames)"""
-    return spec["mode"] == "a" and any(k > 0 for _, k in spec["instruments"])
+    """anticipated shocks endogenized after the start date (forces split frames).  Returns False, True (unanticipated transition shocks
+    zero after the start: one frame) or, for spec['multi'], the last period with an unanticipated shock = the earliest instrument date
+    (one frame per surprise date; a surprise between an instrument and its target would make the plan infeasible)"""
+    if not (spec["mode"] == "a" and any(k > 0 for _, k in spec["instruments"])):
+        return False
+    if spec.get("multi"):
+        return min(k for _, k in spec["instruments"])
+    return True
+
+
+def _merge_caps(caps):
+    """several frames: the final array (later frames overwrite the columns they simulated) on the first frame's inputs"""
+    if len(caps) == 1:
+        return caps[0]
+    cap = dict(caps[0])
+    out = np.array(caps[0]["inp"], dtype=object)
+    f0 = caps[0].get("frame")
+    lo0, hi0 = getattr(f0, "first", 0), getattr(f0, "last", out.shape[1] - 1)
+    out[:, lo0:hi0 + 1] = caps[0]["out"][:, lo0:hi0 + 1]
+    syms = dict(caps[0]["syms"])
+    inp = np.array(caps[0]["inp"], dtype=object)
+    for c in caps[1:]:
+        lo = getattr(c.get("frame"), "first", 0)
+        hi = getattr(c.get("frame"), "last", out.shape[1] - 1)
+        out[:, lo:hi + 1] = c["out"][:, lo:hi + 1]
+        # the user's input of a frame's own columns is what that frame sees there (earlier frames see later surprises pruned to zero)
+        for i in range(inp.shape[0]):
+            for j in range(lo, hi + 1):
+                if isinstance(inp[i, j], float) and inp[i, j] == 0.0 and isinstance(c["inp"][i, j], S.SReal):
+                    inp[i, j] = c["inp"][i, j]
+        syms.update(c["syms"])
+    cap["out"], cap["syms"], cap["inp"] = out, syms, inp
+    return cap
 
 
 def _where(zm, later):
-    if not later:
+    if later is False:
         return None
-    return lambda nm, k: not (nm in zm.tshocks and k > 0)        # pruned / zero unanticipated shocks stay concrete zeros
+    thr = 0 if later is True else int(later)
+    return lambda nm, k: not (nm in zm.tshocks and k > thr)        # pruned / zero unanticipated shocks stay concrete zeros
 
 
 def _run_plan(ir, zm, m, nsim, spec, override=None, values=None):
     later = _later(spec)
     db, span, start = _base_db(ir, zm, m, nsim, values=values, zero_later_unant=later)
     plan = _apply_plan(ir, m, span, start, db, spec, values=values)
-    with fo.FirstOrderLift(ir, _lift_rows(zm), override=override, lift_where=_where(zm, later)) as L, S.Path() as path:
+    multi = bool(spec.get("multi"))
+    with fo.FirstOrderLift(ir, _lift_rows(zm), override=override, lift_where=_where(zm, later), chain=multi) as L, S.Path() as path:
         m.simulate(db, span, method="first_order", deviation=True, plan=plan)
-    if len(L.caps) != 1:
+    if len(L.caps) != 1 and not multi:
         raise RuntimeError(f"{len(L.caps)} frames: multi-frame plans are outside the bound")
-    return L.caps[0], path
+    if multi and len(L.caps) < 2:
+        raise RuntimeError("a multi-frame structure ran in a single frame")
+    return _merge_caps(L.caps), path
 
 
 def _run_plain(ir, zm, m, nsim, override=None, later=False):
@@ -374,7 +417,7 @@ def main(run):
     run.stubs += ["kalmans._INVERSE_FUNCTION['regular'] -> numpy.linalg.inv on the (concrete) innovation covariance: gains depend only on model and plan"]
     run.assumptions += ["cells are mathematical reals; float-born coefficients read exactly", "std rows stay concrete",
                         "equation consistency is decided as 'the plan path equals an ordinary simulation of the returned shocks' (C01 decides ordinary simulations)"]
-    run.outside += ["plans whose simulation is split into more than one frame (anticipated shocks endogenized after the start date together with later unanticipated shocks)",
+    run.outside += ["multi-frame plans beyond the two listed structures per model (frames are chained symbolically)",
                     "method='stacked_time' plans (see C06)", "singular or over/under-identified plans", "time-varying stds"]
     models = [_zm(n) for n in (("nk3", "ar2m", "pc_const", "loglin") if run.tier == "thorough" else ("nk3", "ar2m", "loglin"))]
     nsim = 4
